@@ -57,10 +57,14 @@ package client
 // clean - the disconnect callback runs once and cancellation is checked before
 // sleeping; the reset callback runs once before each retry. Subscribe returns only
 // for a non-streaming query or once the context is cancelled.
+//@ ghost boMark int
 //@ func (*ReconnectClient).Subscribe
 //@   props C18 C12
 //@   requires p != nil && ctx != nil && p.Client != nil && p.backoff != nil && p.disconnect != nil && p.reset != nil
-//@   modifies ghost attempts, ghost disconnects, ghost resets, ghost cancelled, p.subscribeDone, closed(p.subscribeDone)
+//@   modifies ghost attempts, ghost disconnects, ghost resets, ghost cancelled, p.subscribeDone, closed(p.subscribeDone), ghost boResets, ghost lastSince, ghost boMark
+//@   set at call Client.Subscribe#0: boMark := boResets
+//@   assert at call (*github.com/cenkalti/backoff/v4.ExponentialBackOff).NextBackOff#0: [backoff-restarts-after-a-clean-or-a-long-attempt C18]
+//@     boResets == boMark + ite(err == nil, 1, 0) + ite(lastSince > RetryMaxDelay, 1, 0)
 //@   invariant 0: attempts - old(attempts) == disconnects - old(disconnects) && attempts - old(attempts) == resets - old(resets) && ctx != nil
 //@   assert at call time.Sleep#0: [cancellation-checked-after-every-attempt C18] !closed(ctxdone(ctx)) && disconnects - old(disconnects) == attempts - old(attempts)
 //@   assert at call field ReconnectClient.reset#0: [reset-right-before-the-retry C18] resets - old(resets) == attempts - old(attempts) - 1
